@@ -228,7 +228,7 @@ func goNull(node parquet.Node, v reflect.Value) bool {
 		if v.Type() == reflect.TypeOf(time.Time{}) {
 			return v.Interface().(time.Time).IsZero()
 		}
-		return false
+		return v.IsZero() // the zero value of an optional non-pointer struct is null, like any other optional non-pointer field
 	default:
 		return v.IsZero()
 	}
